@@ -510,6 +510,15 @@ _AMEND["C13"].append(
      "or mutable default;",
      "no load-phase function writes a module global, class attribute, "
      "class-level mutable container (through self) or mutable default;"))
+_AMEND["C20"].append(
+    ("text", "Does not decide anything the logging package does",
+     "Also decides that the sample record of the load-time format check has, "
+     "per attribute, the kind and magnitude of value real records carry.  "
+     "Does not decide anything the logging package does"))
+_AMEND.setdefault("C05", []).append(
+    ("text", "Does not decide", "Also decides that handle_define consults and "
+     "updates the mapping, and tests the name, only with the case-normalised "
+     "name.  Does not decide"))
 for _pid, _items in _AMEND.items():
     for _field, _old, _new in _items:
         assert _old in CLAIMS[_pid][_field], (_pid, _old)
